@@ -394,7 +394,14 @@ func unmarshalStructWithMap[T any](data []byte, v *T, mapField string) error {
 		}
 		var x any
 		if err := json.Unmarshal(rv, &x); err != nil {
-			return err
+			// Any JSON value is allowed here, including numbers that no float64
+			// can hold (1e999): keep the numbers of such a value as json.Number.
+			dec := json.NewDecoder(bytes.NewReader(rv))
+			dec.UseNumber()
+			x = nil
+			if err2 := dec.Decode(&x); err2 != nil {
+				return err
+			}
 		}
 		if m == nil {
 			m = map[string]any{}
